@@ -56,11 +56,14 @@ PROPS["C01"] = {
              "names; hand-written and archive/tar headers) x dst pre-populated or empty x dst spelling (clean, trailing slash, through a "
              "symlinked parent) x fault plan (none, truncation or read error at a drawn offset) x optional allow-list. Oracle: snapshot "
              "(type, mode, size, mtime, ctime, inode, nlink, link target, content hash) of the arena R/l1/l2/l3/{dst,dst-evil,dstX,dst.bak,"
-             "outside,...} excluding dst, before vs after Unpack, whatever Unpack returns. Non-trivial = some entry name or link target "
+             "outside,...} excluding dst, before vs after Unpack, whatever Unpack returns. Sequence sub-check: 2-3 such archives unpacked one after "
+             "the other into the same destination path (optionally emptied in between), later archives re-typing names of earlier ones "
+             "(a directory becomes a link leaving dst by way of another link or through the allow-list, dangling links that a later "
+             "archive completes), same snapshot oracle after every call; destination spellings include a destination that is itself a symlink. Non-trivial = some entry name or link target "
              "leaves dst lexically, an entry sits at or below an earlier link's name, or the stream is faulted; distinct by case hash."),
     "assumptions": ["dst exists and contains no symlinks placed by the caller", "atime is ignored (the snapshot walk itself changes it)"],
-    "quick": [rapid("rapid", "^TestPropContainment$", 2500, shards=4)],
-    "thorough": [rapid("rapid", "^TestPropContainment$", 30000, shards=14), fuzz("FuzzUnpackContainment", "120s")],
+    "quick": [rapid("rapid", "^TestPropContainment$", 2500, shards=4), rapid("sequence", "^TestPropSequence$", 600, shards=2)],
+    "thorough": [rapid("rapid", "^TestPropContainment$", 30000, shards=14), rapid("sequence", "^TestPropSequence$", 8000, shards=4), fuzz("FuzzUnpackContainment", "120s")],
 }
 
 PROPS["C04"] = {
@@ -73,10 +76,14 @@ PROPS["C04"] = {
              "dst directly (relative '..' run by depth, absolute, sibling-prefix, {DST}/..) must be refused with *IllegalSlugError and the link "
              "must not exist afterwards. Third sub-check: an entry (file, dir or link; several spellings incl. 'missing/../') whose path lies below a "
              "link created earlier by the same archive must make Unpack fail and nothing may appear at the link's target. Non-trivial = allow-list case, sibling-prefix target, a link target traversing another link's name, "
-             "or the one-offending-link class; distinct by case hash."),
-    "assumptions": ["dst has no pre-existing symlinks", "absolute targets that point into dst are not required to be rejected (existing tested behaviour)"],
-    "quick": [rapid("links", "^TestPropLinks$", 2000, shards=3), rapid("reject", "^TestPropReject$", 2500, shards=1), rapid("through", "^TestPropThrough$", 400, shards=1), rapid("reuse", "^TestPropReuse$", 300, shards=1), rapid("via", "^TestPropVia$", 500, shards=1)],
-    "thorough": [rapid("links", "^TestPropLinks$", 30000, shards=11), rapid("reject", "^TestPropReject$", 30000, shards=2), rapid("through", "^TestPropThrough$", 5000, shards=1), rapid("reuse", "^TestPropReuse$", 3000, shards=1), rapid("via", "^TestPropVia$", 5000, shards=1)],
+             "or the one-offending-link class; distinct by case hash. Sequence sub-check: 2-3 archives unpacked one after the other into the same "
+             "destination (optionally emptied in between, later archives re-typing earlier names and completing dangling links); after every "
+             "call every link under dst is followed physically; a link left by an EARLIER call that leads outside only because of what a later call "
+             "created is the known finding c04-links-across-unpack-calls (decided by the call in which the escaping link was created or last "
+             "changed); an escaping link of the current call is always reported."),
+    "assumptions": ["dst has no symlinks placed by the caller (links left by an earlier Unpack into the same destination are in scope: sequence sub-check)", "absolute targets that point into dst are not required to be rejected (existing tested behaviour)"],
+    "quick": [rapid("links", "^TestPropLinks$", 2000, shards=3), rapid("reject", "^TestPropReject$", 2500, shards=1), rapid("through", "^TestPropThrough$", 400, shards=1), rapid("reuse", "^TestPropReuse$", 300, shards=1), rapid("via", "^TestPropVia$", 500, shards=1), rapid("sequence", "^TestPropSequence$", 500, shards=2)],
+    "thorough": [rapid("links", "^TestPropLinks$", 30000, shards=11), rapid("reject", "^TestPropReject$", 30000, shards=2), rapid("through", "^TestPropThrough$", 5000, shards=1), rapid("reuse", "^TestPropReuse$", 3000, shards=1), rapid("via", "^TestPropVia$", 5000, shards=1), rapid("sequence", "^TestPropSequence$", 6000, shards=4)],
 }
 
 PROPS["C02"] = {
